@@ -15,8 +15,8 @@
    A Python argument is [PBytes b], [PStr enc] (enc = result of .encode('utf-8')) or [POther];
    os.urandom(16) is the [salt] argument of hash_password.
    [std_digest sha kdf salt p] = scrypt(salt, 24, N=16384, r=16, p=1).derive(sha256(p)). *)
-From Model Require Import Base Base64 Auth.
-From Proofs Require Import Base64P AuthP C19P.
+From Model Require Import Base Base64 Auth AuthCfg.
+From Proofs Require Import Base64P AuthP C19P AuthCfgP.
 Open Scope Z_scope.
 
 (* 1. verify_password(p, hash_password(p)) is True: every byte string p, every 16-byte salt *)
@@ -160,6 +160,47 @@ Theorem C19_b64encode_no_colon : forall x, ~ In colon (b64e x).
 Proof. exact b64e_no_colon. Qed.
 Print Assumptions C19_b64encode_no_colon.
 
+(* ---- 15-19. the documented class attributes Auth.SALT_LENGTH / Auth.DIGEST_LENGTH changed between calls, and
+   whole histories of calls in one process (Model/AuthCfg.v: hash_password_cfg c = hash_password with the
+   attributes at the values c; trace = every hash call of a history with the configuration then current).
+   verify_password has no configuration: it reads the parameters from the string. *)
+Theorem C19_default_config : forall sha kdf pw salt,
+  hash_password_cfg sha kdf default_cfg pw salt = hash_password sha kdf pw salt.
+Proof. exact default_is_hash_password. Qed.
+Print Assumptions C19_default_config.
+
+(* the right password verifies whatever the settings were when its hash was made (any salt length 0..255,
+   any digest length 1..255) and whatever they are when it is verified *)
+Theorem C19_cfg_verify_own : forall sha b64d kdf, b64_roundtrip b64d -> kdf_length kdf ->
+  forall c pw salt h, len salt = c_sl c -> 1 <= c_dl c -> hash_password_cfg sha kdf c (PBytes pw) salt = Ok h ->
+  verify_password sha b64d kdf (PBytes pw) (PStr (Ok h)) = Ok true.
+Proof. exact C19_cfg_verify_own_proof. Qed.
+Print Assumptions C19_cfg_verify_own.
+
+Theorem C19_cfg_verify_other_false : forall sha b64d kdf,
+  b64_roundtrip b64d -> kdf_length kdf -> kdf_err_params kdf ->
+  forall c p q salt h, len salt = c_sl c -> 1 <= c_dl c -> hash_password_cfg sha kdf c (PBytes p) salt = Ok h ->
+  cfg_digest sha kdf c salt q <> cfg_digest sha kdf c salt p ->
+  verify_password sha b64d kdf (PBytes q) (PStr (Ok h)) = Ok false.
+Proof. exact C19_cfg_verify_other_false_proof. Qed.
+Print Assumptions C19_cfg_verify_other_false.
+
+(* histories: every hash call of a process - whatever was set and hashed before it - verifies its own
+   password, and two calls with different salts or different settings never return the same string *)
+Theorem C19_history_verify_own : forall sha b64d kdf, b64_roundtrip b64d -> kdf_length kdf ->
+  forall c0 ops c pw salt h, In (c, PBytes pw, salt, Ok h) (trace sha kdf c0 ops) ->
+  len salt = c_sl c -> 1 <= c_dl c ->
+  verify_password sha b64d kdf (PBytes pw) (PStr (Ok h)) = Ok true.
+Proof. exact C19_history_verify_own_proof. Qed.
+Print Assumptions C19_history_verify_own.
+
+Theorem C19_history_distinct : forall sha b64d kdf, b64_roundtrip b64d ->
+  forall c0 ops c1 c2 p1 p2 s1 s2 h1 h2,
+  In (c1, p1, s1, Ok h1) (trace sha kdf c0 ops) -> In (c2, p2, s2, Ok h2) (trace sha kdf c0 ops) ->
+  len s1 = c_sl c1 -> len s2 = c_sl c2 -> (c1 <> c2 \/ s1 <> s2) -> h1 <> h2.
+Proof. exact C19_history_distinct_proof. Qed.
+Print Assumptions C19_history_distinct.
+
 (* ---- non-vacuity: the premises are jointly satisfiable, and the theorems fire on concrete data.
    Instance: sha = identity, b64d = the strict reference decoder of Model/Base64.v, scrypt = the
    first [length] bytes of key material ++ salt ++ zeros (ValueError for length < 0 or N < 2). *)
@@ -226,4 +267,20 @@ Example C19_b64encode_rfc4648 :
   b64e ["f";"o";"o";"b"]%byte = ["Z";"m";"9";"v";"Y";"g";"=";"="]%byte /\
   b64e ["f";"o";"o";"b";"a"]%byte = ["Z";"m";"9";"v";"Y";"m";"E";"="]%byte /\
   b64e ["f";"o";"o";"b";"a";"r"]%byte = ["Z";"m";"9";"v";"Y";"m";"F";"y"]%byte.
+Proof. vm_compute. repeat split. Qed.
+
+
+(* a history: hash under 16/24, raise DIGEST_LENGTH to 32 and SALT_LENGTH to 3, hash again: the second string
+   embeds 3 / 32 ("QAAQAQMg") and both verify *)
+Example C19_history_example :
+  let tr := trace toy_sha toy_kdf default_cfg
+              [AHash (PBytes ex_pw) ex_salt; ASet {| c_sl := 3; c_dl := 32 |}; AHash (PBytes ex_pw) (firstn 3 ex_salt)] in
+  match map snd tr with
+  | [Ok h1; Ok h2] =>
+      h1 = ex_hash /\ firstn 18 h2 = ["s";"c";"r";"y";"p";"t";":";"1";":";"Q";"A";"A";"Q";"A";"Q";"M";"g";":"]%byte /\
+      verify_password toy_sha b64d_strict toy_kdf (PBytes ex_pw) (PStr (Ok h1)) = Ok true /\
+      verify_password toy_sha b64d_strict toy_kdf (PBytes ex_pw) (PStr (Ok h2)) = Ok true /\
+      verify_password toy_sha b64d_strict toy_kdf (PBytes ex_other) (PStr (Ok h2)) = Ok false
+  | _ => False
+  end.
 Proof. vm_compute. repeat split. Qed.
